@@ -32,7 +32,7 @@ func VerifC05_e1_do() {
 		detail = &d
 	}
 	to, te, fa := nondetBool("timeout"), nondetBool("temporary"), nondetBool("fault")
-	kind := nondetChoice("error-kind", 14)
+	kind := nondetChoice("error-kind", 15)
 	var ret error
 	switch kind {
 	case 0:
@@ -47,6 +47,8 @@ func VerifC05_e1_do() {
 		ret = svc.Teapot(msg)
 	case 5: // undeclared service error: default mapping from the flags
 		ret = goa.NewServiceError(errors.New(msg), "other_"+nondetString("name", 1), to, te, fa)
+	case 14: // undeclared service error wrapped by user code
+		ret = fmt.Errorf("ctx: %w", goa.NewServiceError(errors.New(msg), "other_"+nondetString("name", 1), to, te, fa))
 	case 6:
 		ret = &plainErr{msg}
 	case 7: // declared error wrapped by user code
@@ -90,7 +92,7 @@ func VerifC05_e1_do() {
 		wantStatus, wantName = http.StatusLocked, "locked"
 	case 4:
 		wantStatus, wantName = http.StatusTeapot, "teapot"
-	case 5:
+	case 5, 14:
 		switch {
 		case fa:
 			wantStatus = http.StatusInternalServerError
@@ -129,7 +131,7 @@ func VerifC05_e1_do() {
 				verifAssert("designed-flags:temporary-only", !er.Timeout && er.Temporary && !er.Fault && er.Name == "busy")
 			case 13:
 				verifAssert("designed-flags:temporary-fault", !er.Timeout && er.Temporary && er.Fault && er.Name == "down")
-			case 5:
+			case 5, 14:
 				verifAssert("undeclared:service-error-fields-copied", er.Message == msg && er.Timeout == to && er.Temporary == te && er.Fault == fa && strings.HasPrefix(er.Name, "other_"))
 			default:
 				verifAssert("undeclared:plain-error-is-fault", er.Fault && er.Name == "fault")
